@@ -9,3 +9,5 @@ for p in "$@"; do
   if [ $rc -ne 0 ]; then r=$(echo "$out" | grep -o 'replay=[^ ]*' | head -1 | cut -d= -f2); [ -n "$r" ] && grep -m2 '"what"\|^broken' $r | cut -c1-400; fi
 done
 git -C /repo checkout -- .
+# leave the generated model files as they are for the unchanged tree
+python3 -c "import sys; sys.path.insert(0,'/verif'); sys.path.insert(0,'/verif/tools'); from lib import core; core.run_generators(set())" >/dev/null 2>&1
